@@ -77,7 +77,7 @@ Definition slice (s : str) (a b : N) : option str :=
 
 (* the same slice expressed on a suffix [sfx] of the input that starts at byte offset [base] *)
 Definition slice_at (base : N) (sfx : str) (a b : N) : option str :=
-  if a <? base then None else slice sfx (a - base) (b - base).
+  if (a <? base) || (b <? a) then None else slice sfx (a - base) (b - base).
 
 (* common literals *)
 Definition c_lparen : char := 40.
